@@ -5,7 +5,7 @@ CFG = {'assumptions': ['tokio timer, mpsc and oneshot semantics; xxh64 collision
                  'command objects compare as octet strings (the library compares decoded values: NaN and '
                  'signed zero excluded from generated values)',
                  'file transfer tasks and the generic empty-response task are outside the engine vocabulary'],
- 'engines': ['master'],
+ 'engines': ['master', 'convert'],
  'gen': [],
  'level_note': 'trusted: Lean kernel, harness, recording callbacks; Rust modelled not verified; runtime '
                'scheduling outside the model',
@@ -43,7 +43,12 @@ CFG = {'assumptions': ['tokio timer, mpsc and oneshot semantics; xxh64 collision
          'keep-alive; link status frames; cut / down / up / disable / enable / remove and re-add association '
          '/ shutdown at any step.  Every history runs the real task and the Lean model (outputs diffed per '
          'op) and the trace monitors evaluate the property predicates on the implementation trace with an '
-         'independent decoder.',
+         'independent decoder.  engine convert (shared with C10): fragments written by the real outstation '
+         'database writers (every point type and variation, several common-time headers per fragment, '
+         'several fragments) go through ParsedFragment::parse and extract_measurements into a recording '
+         'ReadHandler and are compared with the Lean measurement model and an independent reference: every '
+         'object of an accepted fragment reaches the handler exactly once, in wire order, with the time its '
+         '(latest) common-time header gives it (S137).',
  'trusted_base': ['hand-written Lean model of master/task.rs, association.rs, poll.rs, '
                   'tasks/{mod,auto,command,time,restart,read,deadbands}.rs, request.rs::compare and '
                   'app/retry.rs, tied by differential execution of the REAL MasterTask over an in-memory '
@@ -54,4 +59,5 @@ CFG = {'assumptions': ['tokio timer, mpsc and oneshot semantics; xxh64 collision
                   'handler callbacks (ReadHandler, AssociationHandler clock, AssociationInformation) are '
                   'recording / scripted implementations in the harness',
                   'the probe drives the task like serial/task.rs does (wait_for_enabled, connect, run); '
-                  'shutdown = all handles dropped']}
+                  'shutdown = all handles dropped'],
+ 'engine_monitors': {'convert': ['every_point_delivered_once_in_order', 'time_carried_exact']}}
